@@ -1,4 +1,4 @@
-import ZbossModel.Proofs.Host
+import ZbossModel.Proofs.HostSched
 /-! # C13 - a finished request leaves nothing behind, however it finished
 
 `Host.step` is the request machine at quiescent points: request start, ACK / response bytes,
@@ -38,6 +38,11 @@ theorem C13_finish_removes (st : St) (i : Nat) (o : Outcome) : ∀ l ∈ (finish
 /-- a task step never registers a listener: listeners only disappear while requests run -/
 theorem C13_no_new_listeners (fuel : Nat) (st : St) : ∀ l ∈ (settle fuel st).listeners, l ∈ st.listeners :=
   (frame_settle fuel st).listeners
+
+/-- **no residue under every scheduling order** of the task micro-steps (see `MReach`), not only at the
+    quiescent points of the FIFO run -/
+theorem C13_no_residue_any_schedule (hist : List Out) (st : St) (h : MReach hist st) : NoResidue st :=
+  (mreach_inv hist st h).2
 
 /-! ## non-vacuity: a request cancelled while queued behind the message lock leaves no listener, and the
     response that arrives later goes to the next request for that command -/
